@@ -38,6 +38,17 @@ CLAIMED = {
             'methods x 256 first bytes; writer/CSV twins and stream-positioning discipline as they are added. Decides agreement of the copies, '
             'not behaviour at every chunk alignment.',
             'twin comparison of decision tables / statement skeletons of sibling implementations', '§5 C10'),
+    'C11': ('other',
+            'Abstract interpretation of the cross-width transcoders over the scalar-value / code-unit classes of the Unicode standard: for '
+            'every well-formed class the emitted code-unit intervals and the consumed length equal the standard (all 256 UTF-8 lead bytes x '
+            'second-byte classes; encoder classes; surrogate pairs), plus width dispatch and endianness adapters of the traits classes. '
+            'Exactness is decided at interval precision per class, not per scalar value.',
+            'decision tables by abstract interpretation over interval classes, compared with a hand-written Unicode oracle', '§5 C11'),
+    'C12': ('other',
+            'Same interpreter over the ill-formed classes (Table 3-7 complements, lone/misordered surrogates, UTF-32 surrogates and values '
+            'above U+10FFFF): nothing decoded is emitted, the error is counted once and marked or reported at its start; every input read is '
+            'bounds-guarded and every iteration advances. First sequence of the input only.',
+            'decision tables by abstract interpretation over interval classes + iterator typestate (guard domination)', '§5 C12'),
     'C19': ('proof',
             'Exhaustive audit of shared state: every static-storage object of the library is immutable or a tabled registry written only '
             'during static initialisation; save paths never mutate the source; hence every shared access from concurrent operations is a '
